@@ -158,20 +158,27 @@ class GridJudge:
     o = np.asarray(out, np.float64).reshape(len(out), -1)
     row0 = self.n
     self.n += o.shape[0]
-    fin = np.isfinite(o)
-    self._first('finite', ~fin, o, row0)
     with np.errstate(invalid='ignore'):
-      self._first('range', fin & ((o < g.vmin - g.tol) | (o > g.vmax + g.tol)), o, row0)
-      dev = np.minimum(np.minimum(np.abs(o - g.cand[0]), np.abs(o - g.cand[1])), np.abs(o - g.cand[2]))
-      self._first('member', fin & (dev > g.tol), o, row0)
+      omin, omax = o.min(), o.max()
+      if not (np.isfinite(omin) and np.isfinite(omax)):   # NaN propagates through min/max
+        fin = np.isfinite(o)
+        self._first('finite', ~fin, o, row0)
+      else:
+        fin = True
+      if not (omin >= g.vmin - g.tol and omax <= g.vmax + g.tol):
+        self._first('range', fin & ((o < g.vmin - g.tol) | (o > g.vmax + g.tol)), o, row0)
+      dev = np.abs(o - g.cand[0])
+      np.minimum(dev, np.abs(o - g.cand[1]), out=dev)
+      np.minimum(dev, np.abs(o - g.cand[2]), out=dev)
+      if not dev.max() <= g.tol:
+        self._first('member', fin & (dev > g.tol), o, row0)
       self.upper += (o > g.mid).sum(0)
       if self.exact_identity:
         ch = o != g.x
-      else:
-        ch = np.abs(o - g.x) > g.tol
-      self.moved += ch.sum(0)
-      if self.exact_identity:
+        self.moved += ch.sum(0)
         self._first('identity', ch, o, row0)
+      elif self.ongrid:
+        self.moved += (np.abs(o - g.x) > g.tol).sum(0)
 
   def unbiased_bad(self):
     """Coordinates whose upper-neighbour count leaves the accepted interval."""
@@ -238,18 +245,26 @@ class TernJudge:
     o = np.asarray(out, np.float64).reshape(len(out), -1)
     row0 = self.n
     self.n += o.shape[0]
-    fin = np.isfinite(o)
-    self._first('finite', ~fin, o, row0)
     a = np.abs(o)
     nz = a > 0
     with np.errstate(invalid='ignore'):
-      self._first('sign', fin & nz & (np.sign(o) != np.sign(t.x)), o, row0)
-      if t.degenerate:
-        self._first('levels', fin & (a > t.s + t.tol_s), o, row0)
+      amax = a.max()
+      if not np.isfinite(amax):
+        fin = np.isfinite(o)
+        self._first('finite', ~fin, o, row0)
       else:
-        self._first('levels', fin & nz & (np.abs(a - t.s) > t.tol_s), o, row0)
-    if len(self.mags) < 8:
-      self.mags.update(np.unique(a[nz & fin]).tolist()[:8])
+        fin = True
+      if not np.all((o * t.x)[nz] > 0):
+        self._first('sign', fin & nz & (np.sign(o) != np.sign(t.x)), o, row0)
+      if nz.any():
+        amin = a[nz].min() if fin is True else np.nanmin(np.where(nz & fin, a, np.nan))
+        if len(self.mags) < 8:
+          self.mags.update(float(m) for m in (amin, amax) if np.isfinite(m))
+        if t.degenerate:
+          if not amax <= t.s + t.tol_s:
+            self._first('levels', fin & (a > t.s + t.tol_s), o, row0)
+        elif not (abs(amax - t.s) <= t.tol_s and abs(amin - t.s) <= t.tol_s):
+          self._first('levels', fin & nz & (np.abs(a - t.s) > t.tol_s), o, row0)
     self.nonzero += nz.sum(0)
 
   def bias_bad(self):
@@ -319,7 +334,7 @@ def selfcheck(ctx):
 
 # ================================================================== generators
 def shape_pool(rng, count):
-  forced = [(1,), (257,), (2,), (), (16, 16), (3, 5, 7), (256,), (1, 1, 1), (64,), (7, 1), (129,), (2, 3, 4)]
+  forced = [(1,), (257,), (2,), (), (16, 16), (3, 5, 7), (256,), (1, 1, 1)]
   pool = []
   for i in range(count):
     if i < len(forced):
@@ -339,8 +354,17 @@ def shape_pool(rng, count):
       if 1 <= int(np.prod(s)) <= 257 and s not in pool:
         break
     pool.append(s)
-  order = rng.permutation(count)
-  return [pool[i] for i in order]
+  return pool
+
+
+def balance(pool, nshards):
+  """Orders a pool so that the shapes of shard s (indices s, s+S, s+2S, ...) have a similar total size."""
+  a = sorted(pool, key=lambda s: (int(np.prod(s)) if len(s) else 1, s))
+  out = []
+  for g in range(len(a) // nshards):
+    block = a[g * nshards:(g + 1) * nshards]
+    out.extend(block[::-1] if g % 2 else block)
+  return out
 
 
 def pick_levels(rng, dyadic=False):
@@ -503,7 +527,7 @@ def run_mc(ctx, jax, jnp, C):
   S = ctx.nshards
   per = 3 if ctx.quick else 2
   P = S * per
-  pool = shape_pool(ctx.rng('mc-shapes'), P)
+  pool = balance(shape_pool(ctx.rng('mc-shapes'), P), S)
   sweeps = 14 if ctx.quick else 30
   nkeys = 4096 if ctx.quick else 65536
   fns = {}
